@@ -316,4 +316,31 @@ PROPS = {
                  "by hash of the input."),
         "assumptions": [],
     },
+    "C07": {
+        "src": "c07", "engine": "fuzz", "engine_name": "libfuzzer-runner", "level": "exploration", "leaks": True,
+        "variants": ["fz"],
+        "technique": "coverage-guided fuzzing (libFuzzer, fork mode) of the rule compiler with a token-level grammar-aware mutator and an in-target diagnostics / canary oracle",
+        "level_text": ("libFuzzer compiles every input through a rotating entry point (add_string / add_bytes / add_file / "
+                       "add_fd), optionally with externals, strict escapes and an include callback that serves slices of "
+                       "the input, the input itself, a self-including file and an 18-deep include chain. Seeds are every rule "
+                       "text found in the repository's tests, documentation and rules_fuzzer_corpus; a custom mutator works "
+                       "on tokens (delete / duplicate / swap / replace / insert keywords, truncate after token k, blow "
+                       "identifiers, strings, regexps and integers up to the documented limits, nest loops and parentheses, "
+                       "break hex strings and regexps from inside). Oracle in the target: no ASan/UBSan/LSan report or "
+                       "assertion; 0 errors => no ERROR callback, get_rules succeeds and the rules scan a fixed buffer; "
+                       "n > 0 errors => exactly n ERROR callbacks, each with a message and a line number >= 0; the compiler "
+                       "is destroyed; every 32 inputs a canary rule set is compiled and scanned and must give its known "
+                       "trace."),
+        "level_note": ("Exploration bounded by time; inputs <= 8 KiB; libFuzzer timeouts (25 s) are confirmed three times "
+                       "single-threaded before they count as a hang."),
+        "quick": (0, 60), "thorough": (0, 900),
+        "floor": 50,
+        "fuzz_targets": [
+            {"name": "rules", "seed_gen": "rules", "dict": "{repo}/tests/oss-fuzz/rules_fuzzer.dict", "max_len": 8192, "timeout": 25},
+        ],
+        "rule": ("case = one input (option byte + rule text). Non-trivial: the text contains a rule skeleton (`rule`, `{`, "
+                 "`condition`) and compilation reports >= 1 error, i.e. an error raised inside a rule; distinct by hash of "
+                 "the input. The class histogram lists how many inputs ended in each error code."),
+        "assumptions": [],
+    },
 }
